@@ -1,15 +1,25 @@
 // unc: evaluator for the uncertainty estimates (C18).  Python (checks/c18.py) builds the model lattices
-// and holds the oracle; this program builds each model, evaluates a_mu, the three uncertainty estimates
-// through every overload and the ingredients of the documented formulas.  Doubles as C99 hex floats.
+// and holds the oracle; this program builds each model and evaluates a_mu, the ingredients of the documented
+// formulas and EVERY uncertainty entry point that exists in the sources:
+//   public C++  (include/gm2calc/gm2_uncertainty.hpp)      model-only
+//   helper C++  (src/gm2_uncertainty_helpers.hpp)           precomputed a_mu values
+//   public C    (include/gm2calc/gm2_uncertainty.h)         model-only
+//   helper C    (src/gm2_uncertainty_helpers.h)             precomputed a_mu values (used by the Mathematica interface)
+// Every value is reported as  F:<function name>|<model>|<number of double arguments>:<variant>=<hex double>
+//   variant v: model-only;  p: precomputed arguments = the model's own a_1L, a_2L;  x: arbitrary arguments x1, x2.
+// checks/c18.py greps the four headers at run time and refuses to run if a declared function is not reported here.
 //
 // stdin:
 //   base <idx> <path>                     load a GM2Calc-format input file as base point <idx>
 //   mssm <n> then n lines:  <idx> <tb|nan> <f_mu> <f_M1> <f_M2> <fA> <x1> <x2>
 //        model = base[idx] with tan(beta) replaced (unless nan), Mu, M1, M2 multiplied by the factors and
-//        Ae(2,2) = Ae(2,2)_base + fA * Mu * tan(beta)   (fA = 1 removes the smuon mixing term at tree level)
-//        -> M <OK|FORCED|EXC class what> a1L a2L d0 d1 d2 d0(a1L) d1(a2L) d0(x1) d1(x2) amu2LaCha amu2LaSferm
+//        Ae(2,2) = Ae(2,2)_base + fA * Mu * tan(beta)
+//        -> M <OK|FORCED|EXC class what> a1L=.. a2L=.. cha=.. sferm=.. F:...
 //   thdm <n> then n lines: <type> <tb> <mh> <mH> <mA> <mHp> <sba> <l6> <l7> <m122> <zu> <zd> <zl> <running> <x1> <x2>
-//        -> T <OK|EXC ...> a1L a2L d0 d1 d2 d0(a1L,a2L) d1(a1L,a2L) d2(a1L,a2L) d0(x1,x2) d1(x1,x2) d2(x1,x2) mH mA mHp m_mu alpha_em
+//        -> T <OK|EXC ...> a1L=.. a2L=.. mH=.. mA=.. mHp=.. mm=.. aem=.. F:...
+//   text <slha|gm2calc|thdm> <x1> <x2> <nbytes>\n<nbytes of input file content>
+//        the content is read the way gm2calc.x reads it (GM2CalcConfig force-output / running couplings honoured)
+//        -> M ... | T ... as above
 //   END <n> closes every command
 #include "gm2calc/MSSMNoFV_onshell.hpp"
 #include "gm2calc/THDM.hpp"
@@ -17,8 +27,11 @@
 #include "gm2calc/gm2_1loop.hpp"
 #include "gm2calc/gm2_2loop.hpp"
 #include "gm2calc/gm2_uncertainty.hpp"
+#include "gm2calc/gm2_uncertainty.h"
 #include "gm2calc/gm2_error.hpp"
 #include "gm2_uncertainty_helpers.hpp"
+#include "gm2_uncertainty_helpers.h"
+#include "gm2_config_options.hpp"
 #include "gm2_slha_io.hpp"
 #include <cmath>
 #include <cstdio>
@@ -27,8 +40,9 @@
 #include <map>
 #include <sstream>
 #include <string>
+#include <vector>
 
-using namespace gm2calc;
+namespace g = gm2calc;
 
 static double rd() { std::string s; if (!(std::cin >> s)) std::exit(3); return std::strtod(s.c_str(), nullptr); }
 static std::string clean(std::string s) { for (auto& c : s) if (c == '\n' || c == '\r') c = ' '; if (s.size() > 160) s.resize(160); return s; }
@@ -39,14 +53,68 @@ struct Quiet {   // the library prints warnings to std::cerr
    ~Quiet() { std::cerr.rdbuf(old); }
 };
 
-static std::map<int, GM2_slha_io> bases;
+static std::map<int, g::GM2_slha_io> bases;
 
-static void eval_mssm(const MSSMNoFV_onshell& m, const char* status, double x1, double x2) {
-   const double a1 = calculate_amu_1loop(m), a2 = calculate_amu_2loop(m);
-   const double d0 = calculate_uncertainty_amu_0loop(m), d1 = calculate_uncertainty_amu_1loop(m), d2 = calculate_uncertainty_amu_2loop(m);
-   const double d0p = calculate_uncertainty_amu_0loop(m, a1), d1p = calculate_uncertainty_amu_1loop(m, a2);
-   const double d0x = calculate_uncertainty_amu_0loop(m, x1), d1x = calculate_uncertainty_amu_1loop(m, x2);
-   std::printf("M %s %a %a %a %a %a %a %a %a %a %a %a\n", status, a1, a2, d0, d1, d2, d0p, d1p, d0x, d1x, amu2LaCha(m), amu2LaSferm(m));
+#define PF(NAME, MODEL, N, VAR, EXPR) std::printf(" F:%s|%s|%d:%s=%a", NAME, MODEL, N, VAR, (double)(EXPR))
+
+static void eval_mssm(const g::MSSMNoFV_onshell& m, const char* status, double x1, double x2) {
+   const double a1 = g::calculate_amu_1loop(m), a2 = g::calculate_amu_2loop(m);
+   const ::MSSMNoFV_onshell* c = reinterpret_cast<const ::MSSMNoFV_onshell*>(&m);
+   const char* M = "MSSMNoFV_onshell";
+   std::printf("M %s a1L=%a a2L=%a cha=%a sferm=%a", status, a1, a2, g::amu2LaCha(m), g::amu2LaSferm(m));
+   // public C++
+   PF("calculate_uncertainty_amu_0loop", M, 0, "v", g::calculate_uncertainty_amu_0loop(m));
+   PF("calculate_uncertainty_amu_1loop", M, 0, "v", g::calculate_uncertainty_amu_1loop(m));
+   PF("calculate_uncertainty_amu_2loop", M, 0, "v", g::calculate_uncertainty_amu_2loop(m));
+   // helper C++
+   PF("calculate_uncertainty_amu_0loop", M, 1, "p", g::calculate_uncertainty_amu_0loop(m, a1));
+   PF("calculate_uncertainty_amu_0loop", M, 1, "x", g::calculate_uncertainty_amu_0loop(m, x1));
+   PF("calculate_uncertainty_amu_1loop", M, 1, "p", g::calculate_uncertainty_amu_1loop(m, a2));
+   PF("calculate_uncertainty_amu_1loop", M, 1, "x", g::calculate_uncertainty_amu_1loop(m, x2));
+   // public C
+   PF("gm2calc_mssmnofv_calculate_uncertainty_amu_0loop", M, 0, "v", gm2calc_mssmnofv_calculate_uncertainty_amu_0loop(c));
+   PF("gm2calc_mssmnofv_calculate_uncertainty_amu_1loop", M, 0, "v", gm2calc_mssmnofv_calculate_uncertainty_amu_1loop(c));
+   PF("gm2calc_mssmnofv_calculate_uncertainty_amu_2loop", M, 0, "v", gm2calc_mssmnofv_calculate_uncertainty_amu_2loop(c));
+   // helper C
+   PF("gm2calc_mssmnofv_calculate_uncertainty_amu_0loop_amu1L", M, 1, "p", gm2calc_mssmnofv_calculate_uncertainty_amu_0loop_amu1L(c, a1));
+   PF("gm2calc_mssmnofv_calculate_uncertainty_amu_0loop_amu1L", M, 1, "x", gm2calc_mssmnofv_calculate_uncertainty_amu_0loop_amu1L(c, x1));
+   PF("gm2calc_mssmnofv_calculate_uncertainty_amu_1loop_amu2L", M, 1, "p", gm2calc_mssmnofv_calculate_uncertainty_amu_1loop_amu2L(c, a2));
+   PF("gm2calc_mssmnofv_calculate_uncertainty_amu_1loop_amu2L", M, 1, "x", gm2calc_mssmnofv_calculate_uncertainty_amu_1loop_amu2L(c, x2));
+   std::printf("\n");
+}
+
+static void eval_thdm(const g::THDM& m, double x1, double x2) {
+   const double a1 = g::calculate_amu_1loop(m), a2 = g::calculate_amu_2loop(m);
+   const ::gm2calc_THDM* c = reinterpret_cast<const ::gm2calc_THDM*>(&m);
+   const char* M = "THDM";
+   std::printf("T OK a1L=%a a2L=%a mH=%a mA=%a mHp=%a mm=%a aem=%a", a1, a2, m.get_Mhh(1), m.get_MAh(1), m.get_MHm(1), m.get_MFe(1), m.get_alpha_em());
+   PF("calculate_uncertainty_amu_0loop", M, 0, "v", g::calculate_uncertainty_amu_0loop(m));
+   PF("calculate_uncertainty_amu_1loop", M, 0, "v", g::calculate_uncertainty_amu_1loop(m));
+   PF("calculate_uncertainty_amu_2loop", M, 0, "v", g::calculate_uncertainty_amu_2loop(m));
+   PF("calculate_uncertainty_amu_0loop", M, 2, "p", g::calculate_uncertainty_amu_0loop(m, a1, a2));
+   PF("calculate_uncertainty_amu_1loop", M, 2, "p", g::calculate_uncertainty_amu_1loop(m, a1, a2));
+   PF("calculate_uncertainty_amu_2loop", M, 2, "p", g::calculate_uncertainty_amu_2loop(m, a1, a2));
+   PF("calculate_uncertainty_amu_0loop", M, 2, "x", g::calculate_uncertainty_amu_0loop(m, x1, x2));
+   PF("calculate_uncertainty_amu_1loop", M, 2, "x", g::calculate_uncertainty_amu_1loop(m, x1, x2));
+   PF("calculate_uncertainty_amu_2loop", M, 2, "x", g::calculate_uncertainty_amu_2loop(m, x1, x2));
+   PF("gm2calc_thdm_calculate_uncertainty_amu_0loop", M, 0, "v", gm2calc_thdm_calculate_uncertainty_amu_0loop(c));
+   PF("gm2calc_thdm_calculate_uncertainty_amu_1loop", M, 0, "v", gm2calc_thdm_calculate_uncertainty_amu_1loop(c));
+   PF("gm2calc_thdm_calculate_uncertainty_amu_2loop", M, 0, "v", gm2calc_thdm_calculate_uncertainty_amu_2loop(c));
+   PF("gm2calc_thdm_calculate_uncertainty_amu_0loop_amu1L_amu2L", M, 2, "p", gm2calc_thdm_calculate_uncertainty_amu_0loop_amu1L_amu2L(c, a1, a2));
+   PF("gm2calc_thdm_calculate_uncertainty_amu_1loop_amu1L_amu2L", M, 2, "p", gm2calc_thdm_calculate_uncertainty_amu_1loop_amu1L_amu2L(c, a1, a2));
+   PF("gm2calc_thdm_calculate_uncertainty_amu_2loop_amu1L_amu2L", M, 2, "p", gm2calc_thdm_calculate_uncertainty_amu_2loop_amu1L_amu2L(c, a1, a2));
+   PF("gm2calc_thdm_calculate_uncertainty_amu_0loop_amu1L_amu2L", M, 2, "x", gm2calc_thdm_calculate_uncertainty_amu_0loop_amu1L_amu2L(c, x1, x2));
+   PF("gm2calc_thdm_calculate_uncertainty_amu_1loop_amu1L_amu2L", M, 2, "x", gm2calc_thdm_calculate_uncertainty_amu_1loop_amu1L_amu2L(c, x1, x2));
+   PF("gm2calc_thdm_calculate_uncertainty_amu_2loop_amu1L_amu2L", M, 2, "x", gm2calc_thdm_calculate_uncertainty_amu_2loop_amu1L_amu2L(c, x1, x2));
+   std::printf("\n");
+}
+
+template <class F> static void guarded(const char* tag, F f) {
+   try { f(); }
+   catch (const g::EInvalidInput& e) { std::printf("%s EXC EInvalidInput %s\n", tag, clean(e.what()).c_str()); }
+   catch (const g::EPhysicalProblem& e) { std::printf("%s EXC EPhysicalProblem %s\n", tag, clean(e.what()).c_str()); }
+   catch (const g::Error& e) { std::printf("%s EXC Error %s\n", tag, clean(e.what()).c_str()); }
+   catch (const std::exception& e) { std::printf("%s EXC std::exception %s\n", tag, clean(e.what()).c_str()); }
 }
 
 static void do_mssm() {
@@ -56,7 +124,7 @@ static void do_mssm() {
    for (int forced = 0; forced < 2; forced++) {
       try {
          Quiet q;
-         MSSMNoFV_onshell m;
+         g::MSSMNoFV_onshell m;
          m.do_force_output(forced);
          it->second.fill_gm2calc(m);
          if (!std::isnan(tb)) m.set_TB(tb);
@@ -65,7 +133,7 @@ static void do_mssm() {
          m.calculate_masses();
          eval_mssm(m, forced ? "FORCED" : "OK", x1, x2);
          return;
-      } catch (const Error& e) {
+      } catch (const g::Error& e) {
          if (forced) { std::printf("M EXC Error %s\n", clean(e.what()).c_str()); return; }
       } catch (const std::exception& e) {
          if (forced) { std::printf("M EXC std::exception %s\n", clean(e.what()).c_str()); return; }
@@ -75,25 +143,47 @@ static void do_mssm() {
 
 static void do_thdm() {
    int type = (int)rd();
-   thdm::Mass_basis b;
+   g::thdm::Mass_basis b;
    b.tan_beta = rd(); b.mh = rd(); b.mH = rd(); b.mA = rd(); b.mHp = rd(); b.sin_beta_minus_alpha = rd();
    b.lambda_6 = rd(); b.lambda_7 = rd(); b.m122 = rd(); b.zeta_u = rd(); b.zeta_d = rd(); b.zeta_l = rd();
    int running = (int)rd(); double x1 = rd(), x2 = rd();
-   try {
+   guarded("T", [&] {
       Quiet q;
-      b.yukawa_type = thdm::int_to_cpp_yukawa_type(type);
-      SM sm; thdm::Config cfg; cfg.running_couplings = running;
-      THDM m(b, sm, cfg);
-      const double a1 = calculate_amu_1loop(m), a2 = calculate_amu_2loop(m);
-      const double d0 = calculate_uncertainty_amu_0loop(m), d1 = calculate_uncertainty_amu_1loop(m), d2 = calculate_uncertainty_amu_2loop(m);
-      const double d0p = calculate_uncertainty_amu_0loop(m, a1, a2), d1p = calculate_uncertainty_amu_1loop(m, a1, a2), d2p = calculate_uncertainty_amu_2loop(m, a1, a2);
-      const double d0x = calculate_uncertainty_amu_0loop(m, x1, x2), d1x = calculate_uncertainty_amu_1loop(m, x1, x2), d2x = calculate_uncertainty_amu_2loop(m, x1, x2);
-      std::printf("T OK %a %a %a %a %a %a %a %a %a %a %a %a %a %a %a %a\n", a1, a2, d0, d1, d2, d0p, d1p, d2p, d0x, d1x, d2x,
-                  m.get_Mhh(1), m.get_MAh(1), m.get_MHm(1), m.get_MFe(1), m.get_alpha_em());
-   } catch (const EInvalidInput& e) { std::printf("T EXC EInvalidInput %s\n", clean(e.what()).c_str()); }
-   catch (const EPhysicalProblem& e) { std::printf("T EXC EPhysicalProblem %s\n", clean(e.what()).c_str()); }
-   catch (const Error& e) { std::printf("T EXC Error %s\n", clean(e.what()).c_str()); }
-   catch (const std::exception& e) { std::printf("T EXC std::exception %s\n", clean(e.what()).c_str()); }
+      b.yukawa_type = g::thdm::int_to_cpp_yukawa_type(type);
+      g::SM sm; g::thdm::Config cfg; cfg.running_couplings = running;
+      g::THDM m(b, sm, cfg);
+      eval_thdm(m, x1, x2);
+   });
+}
+
+// the setup sequence of src/gm2calc.cpp
+static void do_text() {
+   std::string kind; std::cin >> kind;
+   double x1 = rd(), x2 = rd(); long nb; std::cin >> nb; std::cin.get();
+   std::string content((size_t)nb, '\0');
+   std::cin.read(&content[0], nb);
+   const char* tag = kind == "thdm" ? "T" : "M";
+   guarded(tag, [&] {
+      Quiet q;
+      g::GM2_slha_io io; std::istringstream is(content); io.read_from_stream(is);
+      g::Config_options opt; io.fill(opt);
+      if (kind == "thdm") {
+         g::SM sm; g::thdm::Mass_basis mb; g::thdm::Gauge_basis gb;
+         io.fill(sm); io.fill(mb); io.fill(gb);
+         g::thdm::Config cfg; cfg.force_output = opt.force_output; cfg.running_couplings = opt.running_couplings;
+         const bool mass = mb.mh != 0 || mb.mH != 0 || mb.mA != 0 || mb.mHp != 0 || mb.sin_beta_minus_alpha != 0;
+         const bool gauge = gb.lambda.head<5>().cwiseAbs().maxCoeff() != 0;
+         if (mass && !gauge) { g::THDM m(mb, sm, cfg); eval_thdm(m, x1, x2); }
+         else if (!mass && gauge) { g::THDM m(gb, sm, cfg); eval_thdm(m, x1, x2); }
+         else throw g::EInvalidInput("Cannot distinguish between mass and gauge basis.");
+      } else {
+         g::MSSMNoFV_onshell m;
+         m.do_force_output(opt.force_output);
+         if (kind == "slha") { io.fill_slha(m); m.convert_to_onshell(); }
+         else { io.fill_gm2calc(m); m.calculate_masses(); }
+         eval_mssm(m, m.get_problems().have_problem() ? "PROBLEM" : "OK", x1, x2);
+      }
+   });
 }
 
 int main() {
@@ -102,13 +192,15 @@ int main() {
       long n = 0;
       if (cmd == "base") {
          int idx; std::string path; std::cin >> idx >> path;
-         try { Quiet q; GM2_slha_io io; io.read_from_file(path); bases[idx] = io; std::printf("B OK %d\n", idx); }
+         try { Quiet q; g::GM2_slha_io io; io.read_from_file(path); bases[idx] = io; std::printf("B OK %d\n", idx); }
          catch (const std::exception& e) { std::printf("B EXC %s\n", clean(e.what()).c_str()); }
          n = 1;
       } else if (cmd == "mssm") {
          std::cin >> n; for (long k = 0; k < n; k++) do_mssm();
       } else if (cmd == "thdm") {
          std::cin >> n; for (long k = 0; k < n; k++) do_thdm();
+      } else if (cmd == "text") {
+         do_text(); n = 1;
       } else { std::printf("ERR cmd %s\n", cmd.c_str()); return 2; }
       std::printf("END %ld\n", n);
       std::fflush(stdout);
